@@ -539,15 +539,21 @@ def abstract_constraint_base(text, err):
 
 
 def alias_nested_shape(text, err):
-    """C11-alias-over-alias-nested-shape: "has no link or property" for a type of the document, and the
-    document has an alias defined over another alias with a nested shape"""
+    """C11-alias-over-alias-nested-shape: "<type> has no link or property <p>" and the document has an
+    alias whose shape descends through a link into a nested shape (`link: { ... }`) - the pointers
+    of the link's TARGET type named there are not dependencies of the alias (directly or through
+    another alias), so the alias is created first when the target type is declared later"""
     if not err or 'has no link or property' not in err.get('msg', ''):
         return False
+    for m in re.finditer(r'alias\s+\w+\s*:=\s*([^;]*)', text):
+        body = m.group(1)
+        if re.search(r'\{[^{}]*\b\w+\s*:\s*\{', body):
+            return True
+    # ... or a path through another alias into a link target's pointer (`A.link.prop` with A an alias)
     aliases = re.findall(r'alias\s+(\w+)\s*:=', text)
     for a in aliases:
-        for b in aliases:
-            if a != b and re.search(r'alias\s+' + re.escape(a) + r'\s*:=\s*\(?\s*(?:select\s+)?(?:[\w:]*::)?' + re.escape(b) + r'\s*\{[^;]*:\s*\{', text):
-                return True
+        if re.search(r'alias\s+\w+\s*:=[^;]*\b' + re.escape(a) + r'\.\w+\.\w+', text):
+            return True
     return False
 
 
